@@ -554,7 +554,18 @@ def _driver(w, script, who):
             elif op == "accept2":
                 from cobald.daemon.runners.service import ServiceRunner
 
+                if w.ended.is_set():
+                    w.ops.append({"op": "accept2", "by": who, "skipped": "the active accept had already ended"})
+                    continue
                 other = w.runner if step.get("same") else ServiceRunner(accept_delay=0.01)
+                if not step.get("same"):
+                    # should this accept ever get through (a defect, or the active accept ending just now), it stops itself
+                    def _self_stop(runner=other):
+                        runner.running.wait(30)
+                        time.sleep(0.05)
+                        runner.shutdown()
+
+                    other.adopt(_self_stop, flavour=threading)
                 rec = {"op": "accept2", "by": who, "t_call": w.now(), "same": bool(step.get("same"))}
                 try:
                     other.accept()
@@ -783,6 +794,14 @@ def _child(scenario, wfd):
             time.sleep(sc.get("linger_ms", 100) / 1000)
             for t in drivers:
                 t.join(5)
+            if any(t.is_alive() for t in drivers) and not isinstance(w.runner, MetaRunnerAdapter):
+                # a driver may be stuck in an accept() on the same instance that got through after the active accept
+                # had ended: stop that run so that it cannot hold the process-wide guard into the next episode
+                stopper = threading.Thread(target=w.runner.shutdown, daemon=True)
+                stopper.start()
+                stopper.join(5)
+                for t in drivers:
+                    t.join(2)
             outcome["drivers_alive"] = sum(1 for t in drivers if t.is_alive())
             outcome["t_linger_end"] = w.now()
             for o in list(w.ops):
